@@ -410,7 +410,7 @@ func (p *edgeP) findFn(bc *ugo.Bytecode) (*ugo.CompiledFunction, error) {
 
 func (p *edgeP) build() (*caseData, error) {
 	// phase 1: measure the frame sizes
-	c := &caseData{Kind: "edge", Tmpl: "edge", NoOpt: p.NoOpt}
+	c := &caseData{Kind: "edge", Tmpl: "edge", NoOpt: p.NoOpt, WantValue: "string"}
 	c.Src = p.source(1, 1)
 	bc, err, pan := compileCase(c)
 	if err != nil || pan != "" {
@@ -801,7 +801,7 @@ func drawCallback(rt *rapid.T) (*caseData, []string) {
 	sb.WriteString("z := 0\n")
 	sb.WriteString(indent(body, 0))
 	sb.WriteString("return \"done\"\n")
-	c := &caseData{Kind: "cb", Tmpl: "callback", Src: sb.String(), Args: g.args, Globals: g.globals, NoOpt: rapid.Bool().Draw(rt, "noopt")}
+	c := &caseData{Kind: "cb", Tmpl: "callback", Src: sb.String(), Args: g.args, Globals: g.globals, NoOpt: rapid.Bool().Draw(rt, "noopt"), WantValue: "done"}
 	c.ArgsSrc = argsString(c.Args)
 	var cl []string
 	for k := range g.classes {
